@@ -40,7 +40,7 @@ ASSUMPTIONS = [
 ]
 TRUSTED = ["stdlib argparse, json, PyYAML, dataclasses"]
 EXHAUSTIVE = {"quick": False, "thorough": False}
-THOROUGH_ROUNDS = 8   # thorough tier: this many generator passes with derived PRNG states (vcheck)
+THOROUGH_ROUNDS = 5   # thorough tier: this many generator passes with derived PRNG states (vcheck)
 SERIAL = False
 
 LEAF_NAMES = ["a", "b", "x", "y", "lr", "seed", "name", "n_it", "w_d", "tag", "k", "depth"]
